@@ -24,9 +24,9 @@ import (
 type Kind uint8
 
 const (
-	Space Kind = iota // white space (only returned by LexAll)
-	String            // '…'
-	QuotedIdent       // `…` or "…"
+	Space       Kind = iota // white space (only returned by LexAll)
+	String                  // '…'
+	QuotedIdent             // `…` or "…"
 	Number
 	Ident   // bare word: identifier or keyword
 	Op      // operator or punctuation
@@ -58,7 +58,9 @@ type Token struct {
 	Pos  int    // byte offset in the input
 }
 
-func isSpace(c byte) bool { return c == ' ' || c == '\t' || c == '\n' || c == '\r' || c == '\f' || c == '\v' }
+func isSpace(c byte) bool {
+	return c == ' ' || c == '\t' || c == '\n' || c == '\r' || c == '\f' || c == '\v'
+}
 func isDigit(c byte) bool { return c >= '0' && c <= '9' }
 func isHex(c byte) bool {
 	return isDigit(c) || (c >= 'a' && c <= 'f') || (c >= 'A' && c <= 'F')
@@ -340,7 +342,7 @@ var ErrNotALiteral = errors.New("lex: not a closed single-quoted literal")
 
 // DecodeString decodes the text of a String token (quotes included) by rule A1 of DESIGN
 // Appendix A, exactly: `\b \f \r \n \t \0 \a \v \xHH \\ \'` are decoded; any other `\c`
-// stays `\c` (both bytes); `''` inside the literal is one quote.
+// stays `\c` (both bytes); `”` inside the literal is one quote.
 // A `\x` that is not followed by two hexadecimal digits is an error (ClickHouse refuses the
 // statement or reads garbage, depending on the version).
 func DecodeString(tok string) ([]byte, error) { return decode(tok, false) }
@@ -474,9 +476,9 @@ func EncodeString(b []byte) string {
 type LikeKind uint8
 
 const (
-	LikeLit LikeKind = iota // one literal byte
-	LikeAnyRun              // %
-	LikeAnyOne              // _
+	LikeLit    LikeKind = iota // one literal byte
+	LikeAnyRun                 // %
+	LikeAnyOne                 // _
 )
 
 type LikeElem struct {
